@@ -106,6 +106,16 @@ def run(p, led, tier):
     led.exhaustive = True
     led.not_decided = ["that repair regexes do not change values (the statement allows 'repaired from')", "pydantic's own coercions inside model_validate", "user co-chaperones / on_misfold callbacks that raise (A3)"]
     led.assumptions = ["A2 json.loads raises JSONDecodeError (or succeeds); model_validate returns an instance of the schema or raises ValidationError", "unknown collections are explored with 0 and 1 element"]
+    led.rule("C11-R7", "a memoised parse result is not modified in place by the strategies that receive it", 0)
+    from ..rules import mutated_cached_values
+    hits7 = mutated_cached_values(p, res, {CH})
+    for f7, c7, h7, d7, g7, st7 in hits7:
+        led.fail("C11-R7", f"{f7.qual} ▸ `{short(c7, 50)}`", where(g7, st7),
+                 f"the value comes out of `{h7.name}` (`{src(d7)}`: shared by every fold of that text, any instance, any schema) and `{g7.name}` writes into it in place (`{short(st7, 50)}`): "
+                 "after one lenient fold coerced it, a later fold of the same raw text sees the coerced data — STRICT accepts or rejects what json parsing of the raw text does not give",
+                 witness='fold \'{"label": 1234}\' against label: str (LENIENT coerces), fold it again: STRICT now succeeds with confidence 1.0 although json.loads(raw) does not validate')
+    if not hits7:
+        led.ok("C11-R7", "Chaperone ▸ memoised parse results", CH, "no memoised parse result is handed to a function that writes into it", nontrivial=False)
     led.rule("C11-R1", "valid ⇒ structure = successful model_validate of JSON parsed from text derived from the raw input", 4)
     led.rule("C11-R2", "invalid ⇒ no structure and an error trace", 4)
     led.rule("C11-R3", "STRICT parses exactly raw.strip() and reports confidence 1.0", 1)
